@@ -294,15 +294,23 @@ func (e *xExec) step(line string) (out string) {
 	case "lcp":
 		t := unhx(ws[1])
 		sa := naiveSA(t)
-		l1 := make([]int32, len(t))
+		// the result must not depend on what the table held before: prefill with garbage
+		dirty := func(seed int) []int32 {
+			l := make([]int32, len(t))
+			for i := range l {
+				l[i] = int32(seed + i*13)
+			}
+			return l
+		}
+		l1 := dirty(-447)
 		if !e.timed("C09", "LCP", fmt.Sprintf("LCP(t, nil, nil, lcp): no return within %v", opDeadline), func() { suffix.LCP(t, nil, nil, l1) }) {
 			return "hang"
 		}
-		l2 := make([]int32, len(t))
+		l2 := dirty(1 << 30)
 		suffix.LCP(t, append([]int32{}, sa...), nil, l2)
-		inv := make([]int32, len(t))
+		inv := dirty(7)
 		suffix.InvertSA(sa, inv)
-		l3 := make([]int32, len(t))
+		l3 := dirty(1)
 		suffix.LCP(t, sa, inv, l3)
 		for i := range l1 {
 			w := 0
